@@ -12,6 +12,7 @@ def run(vc, tier):
     d = 3 if tier == 'quick' else 4
     nc = 4 if tier == 'quick' else 6
     c.run_vx_unit('c02-cstream2', SRC, 'asan', ['--depth', d, '--api', 0, '--ncfg', nc, '--judge', 1], share=0.6, states_from=('transitions', 'transitions'))
+    c.run_vx_unit('c02-stable', SRC, 'asan', ['--api', 3, '--depth', 3, '--D', 0], share=0.3)
     c.run_vx_unit('c02-ring', SRC, 'asan', ['--api', 2, '--D', 0], share=0.3)
     c.run_vx_unit('c02-classic', SRC, 'asan', ['--depth', d - 1 if tier == 'quick' else d, '--api', 1, '--ncfg', nc, '--judge', 1], share=0.3, states_from=('transitions', 'transitions'))
     cat = vc.catalogue('quick')
